@@ -283,7 +283,7 @@ def both_tests(proj, tpath):
 
 MUTATIONS = ["fx_cycle", "fx_unknown_param", "fx_scope", "fx_per_thread", "fx_forbidden", "fx_builtin",
              "test_unknown_fx", "suite_unknown_fx", "suite_per_thread", "suite_scope",
-             "dep_unknown", "dep_cycle", "dep_filtered",
+             "dep_unknown", "dep_cycle", "dep_lasso", "dep_filtered",
              "pol_unknown_prop", "pol_forbidden_prop", "pol_missing_prop", "pol_bad_value", "pol_unknown_tag", "pol_forbidden_tag"]
 
 
@@ -382,7 +382,28 @@ def mutate(rng, proj, kind):
         for i, tp in enumerate(cyc):
             for t in both_tests(proj, tp):
                 t["deps"].insert(rng.randint(0, len(t["deps"])), list(cyc[(i + 1) % k]))
+        # "lasso": the cycle is also reached from tests outside it, declared before or after it (a resolution that remembers what
+        # it has already walked must still find the cycle when the walk starts outside)
+        outside = [tp for tp in tests if tp not in cyc]
+        if outside and rng.random() < 0.6:
+            for o in ([outside[0]] if rng.random() < 0.5 else rng.sample(outside, min(len(outside), rng.randint(1, 2)))):
+                for t in both_tests(proj, o):
+                    t["deps"].insert(rng.randint(0, len(t["deps"])), list(rng.choice(cyc)))
+            return "dependency cycle of length %d entered from outside" % k
         return "dependency cycle of length %d" % k
+    if kind == "dep_lasso":
+        # a cycle among later-declared tests, reached from the FIRST declared test (which is not on the cycle)
+        if len(tests) < 2:
+            return None
+        rest = tests[1:]
+        k = max(1, min(rng.choice([1, 2, 2, 3]), len(rest)))
+        cyc = rng.sample(rest, k)
+        for i, tp in enumerate(cyc):
+            for t in both_tests(proj, tp):
+                t["deps"].insert(rng.randint(0, len(t["deps"])), list(cyc[(i + 1) % k]))
+        for t in both_tests(proj, tests[0]):
+            t["deps"].insert(rng.randint(0, len(t["deps"])), list(cyc[0]))
+        return "dependency cycle of length %d reached from the first declared test" % k
     if kind == "dep_filtered":
         if len(tests) < 2:
             return None
